@@ -166,6 +166,12 @@ func (t *tracer) releaseAll() {
 
 func str(s string) string { return vh.Str(s) }
 
+// Coq term of an AddWorkload call -> workload id (to name the instance of a failed create)
+var (
+	wlIDs   = map[string]string{}
+	wlIDsMu sync.Mutex
+)
+
 // ---- store wrapper (call level)
 type storeT struct {
 	store.Store
@@ -188,6 +194,9 @@ func (s *storeT) ListNodeWorkloads(ctx context.Context, name string, labels map[
 	return
 }
 func (s *storeT) AddWorkload(ctx context.Context, wl *types.Workload, p *types.Processing) error {
+	wlIDsMu.Lock()
+	wlIDs[fmt.Sprintf("(CAddWl %s %s)", str(wl.ID), str(wl.Nodename))] = wl.ID
+	wlIDsMu.Unlock()
 	return s.t.do(ctx, "CAddWl", fmt.Sprintf("(CAddWl %s %s)", str(wl.ID), str(wl.Nodename)), true, func() error { return s.Store.AddWorkload(ctx, wl, p) })
 }
 func (s *storeT) RemoveWorkload(ctx context.Context, wl *types.Workload) error {
@@ -294,6 +303,22 @@ func (m *rmgrT) AddNode(ctx context.Context, name string, opts resourcetypes.Res
 }
 func (m *rmgrT) RemoveNode(ctx context.Context, name string) error {
 	return m.t.do(ctx, "PRemoveNode", fmt.Sprintf("(PRemoveNode %s)", str(name)), true, func() error { return m.Manager.RemoveNode(ctx, name) })
+}
+func (m *rmgrT) GetNodesDeployCapacity(ctx context.Context, names []string, opts resourcetypes.Resources) (r map[string]*plugintypes.NodeDeployCapacity, total int, err error) {
+	if len(names) != 1 {
+		return m.Manager.GetNodesDeployCapacity(ctx, names, opts)
+	}
+	err = m.t.do(ctx, "PCapacity", fmt.Sprintf("(PCapacity %s)", str(names[0])), true, func() (e error) {
+		r, total, e = m.Manager.GetNodesDeployCapacity(ctx, names, opts)
+		if e == nil && total <= 0 {
+			return errors.New("no capacity")
+		}
+		return
+	})
+	if err != nil && r != nil {
+		return r, total, nil // let calcium turn "no capacity" into its own error
+	}
+	return
 }
 func (m *rmgrT) Alloc(ctx context.Context, name string, n int, opts resourcetypes.Resources) (a, b []resourcetypes.Resources, err error) {
 	err = m.t.do(ctx, "PAlloc", fmt.Sprintf("(PAlloc %s)", str(name)), true, func() (e error) { a, b, e = m.Manager.Alloc(ctx, name, n, opts); return })
@@ -587,7 +612,18 @@ func runCase(t *testing.T, r *vh.Run, worldNo int, ops []opSpec, tags map[string
 		if o.Fault >= 0 {
 			fl = vh.Some(vh.Nat(o.Fault))
 		}
-		opTerms = append(opTerms, vh.Pair(ctorOf(o, results[i].id), fl))
+		cid := results[i].id
+		if o.Kind == "create" && cid == "" {
+			// the instance failed: the id the engine produced is in the AddWorkload call
+			for _, st := range tr.steps {
+				if st.Tag == tag && st.Kind == "CAddWl" {
+					if k := strings.Index(st.Call, "(CAddWl "); k >= 0 {
+						cid = wlIDs[st.Call]
+					}
+				}
+			}
+		}
+		opTerms = append(opTerms, vh.Pair(ctorOf(o, cid), fl))
 		pauses = append(pauses, vh.Nat(o.Pause))
 		cs := []string{}
 		for _, s := range tr.steps {
@@ -657,12 +693,12 @@ func TestC22(t *testing.T) {
 	r := vh.New(t, "C22", "refs")
 	r.Coq("From Verif Require Import Calcium.Refs.", "Refs.case", "Refs.agree", "Refs.ok")
 	r.Shard = 50
-	n := r.N(64, 2000)
+	n := r.N(64, 1200)
 	rng := r.Rng
 	nf := -1
 	// corpus: the four witnesses
 	runCase(t, r, 1, []opSpec{{Kind: "add-node", A: "n", B: "p", Fault: nf, Pause: 2}, {Kind: "remove-pod", A: "p", Fault: nf, Pause: 64}}, map[string]any{"corpus": "addnode-removepod"})
-	runCase(t, r, 2, []opSpec{{Kind: "create", A: "n", Fault: nf, Pause: 5}, {Kind: "remove-node", A: "n", Fault: nf, Pause: 64}}, map[string]any{"corpus": "create-removenode"})
+	runCase(t, r, 2, []opSpec{{Kind: "create", A: "n", Fault: nf, Pause: 6}, {Kind: "remove-node", A: "n", Fault: nf, Pause: 64}}, map[string]any{"corpus": "create-removenode"})
 	runCase(t, r, 2, []opSpec{{Kind: "remove-node", A: "n", Fault: 3, Pause: 64}}, map[string]any{"corpus": "removenode-plugin-fault"})
 	runCase(t, r, 2, []opSpec{{Kind: "remove-node", A: "n", Fault: nf, Pause: 1}, {Kind: "remove-node", A: "n", Fault: nf, Pause: 64},
 		{Kind: "add-node", A: "n", B: "p", Fault: nf, Pause: 1}}, map[string]any{"corpus": "stale-removenode"})
